@@ -118,10 +118,10 @@ def configs(tier):
     cfgs = []
 
     def add(name, optsl, templates, ases=None, recas=(1,), vals=(3,), res=RES1, maxinst=1, maxrec=1, maxscr=1, budget=None,
-            scopes=(), spans=(False,), mark=True, maxpre=0, shut=False):
+            scopes=(), spans=(False,), mark=True, maxpre=0, shut=False, faults=(), maxfaults=1):
         cfgs.append(dict(name=name, opts=optsl, templates=templates, ases=ases or [[]], recas=list(recas), vals=list(vals),
                          res=res, maxinst=maxinst, maxrec=maxrec, maxscr=maxscr, budget=budget, scopes=list(scopes),
-                         spans=list(spans), mark=mark, maxpre=maxpre, shut=shut))
+                         spans=list(spans), mark=mark, maxpre=maxpre, shut=shut, faults=list(faults), maxfaults=maxfaults))
 
     # ---- names: token sequences x units x kinds x options
     alpha = [w("foo"), TOT, u("seconds"), sep("_"), sep(".")]
@@ -215,6 +215,14 @@ def configs(tier):
     templ = [inst(1, [w("foo")], "counter", scope="sA"), inst(2, [w("bar")], "ogauge", scope="sB")]
     add("lifecycle", [opts(s, **o) for s in SCHEMES for o in (lopts2 if th else lopts2[:3])], templ, res=RES3, vals=(2,),
         maxinst=2, maxrec=2, maxscr=2, maxpre=2, shut=True)
+    # ---- faults: the collection behind a scrape ends with a NON-FATAL error (an observable callback / an external
+    # producer fails, and recovers) while other instruments hold data: everything the reader produced is exposed;
+    # together with the collections without data (before registration, after shutdown)
+    fopts = [dict(), dict(resConst=True, resKeys=[1, 2]), dict(noScope=True)] + ([dict(noTarget=True)] if th else [])
+    templ = [inst(1, [w("foo")], "counter", scope="sA"), inst(2, [w("bar")], "ogauge", scope="sB"),
+             inst(3, [w("baz")], "hist", "s", scope="sA")]
+    add("faults", [opts(s, **o) for s in SCHEMES for o in fopts], templ, res=RES3, vals=(2,), maxinst=2, maxrec=2,
+        maxscr=3, maxpre=1, shut=True, faults=("cb", "cbctx", "prod"), maxfaults=2 if th else 1, budget=16000 if th else 1500)   # thorough: 48 240 leaves, a third keeps the tier under 30 min
     # ---- illformed: inputs the SDK accepts although they are not valid UTF-8 (attribute value, description, meter
     # name / version / scope attribute): never a panic, the well-formed rest of the scrape is exposed faithfully
     badscope = lambda how: {"id": "sX" + how[0], "name": "sX", "version": "vsX", "url": "", "attrs": [], "ill": how}
@@ -318,6 +326,10 @@ def run(ctx):
                 sig = {"dir": name.split("-")[0], "dev": dev, "why": v["why"] if len(devs) == 1 else "combined", "via": v["via"]}
                 if v.get("panic"):
                     sig["panic"] = v["panic"][:120]
+                col = v.get("collect") or {}
+                if col.get("kind", "ok") != "ok":
+                    # the class of collection behind the scrape (PromModel: CollectKind), e.g. partial:cb
+                    sig["collect"] = ":".join([col["kind"]] + list(col.get("faults") or []))
                 ctx.violation(sig, replay={"viol": v, "scenario": scen})
 
     def scenario_of(lines, v):
@@ -342,9 +354,10 @@ def run(ctx):
             dfn = {"OPTS": tla(TSet(c["opts"])), "TEMPLATES": tla(TSet(c["templates"])), "ASES": tla(c["ases"]),
                    "RECAS": tla(TSet(c["recas"])), "VALS": tla(TSet(c["vals"])), "RES": tla(c["res"]), "SCOPES": tla(c["scopes"]),
                    "SPANFLAGS": tla(TSet(c["spans"])), "MARK": tla(c["mark"]), "MAXPRE": c["maxpre"], "ALLOWSHUT": tla(c["shut"]),
-                   "MAXINST": c["maxinst"], "MAXREC": c["maxrec"], "MAXSCR": c["maxscr"]}
+                   "MAXINST": c["maxinst"], "MAXREC": c["maxrec"], "MAXSCR": c["maxscr"],
+                   "FAULTS": tla(TSet(c["faults"])), "MAXFAULTS": c["maxfaults"]}
             r = ctx.tlc(S, "MC_PromExport", "MC_PromExport.cfg", defines=dfn, want_edges=True, name=c["name"], timeout=3000,
-                        coverage=(th and c["name"] == "lifecycle"))
+                        coverage=(th and c["name"] == "faults"))   # every action of the explorer is enabled there
             if r["zero_cov"]:
                 ctx.note_inconclusive("TLC %s: actions never taken: %s" % (c["name"], r["zero_cov"]))
             scen, nedges = leaves(r["edges_file"])
